@@ -251,4 +251,16 @@ def SigOk (r s : Nat) (recid : UInt8) (sig : Bytes) : Prop :=
 instance (r s : Nat) (recid : UInt8) (sig : Bytes) : Decidable (SigOk r s recid sig) := by
   unfold SigOk; infer_instance
 
+/-! ## the watch loop between hashing and submission (`watchExecution` of both executors) -/
+
+inductive WatchOut
+  | closed                          -- a poll found every member executed before a signature arrived: nothing is submitted
+  | submitted (batch : List Nat)    -- the signature arrived: this is what `ExecuteProposals` receives
+deriving DecidableEq, Repr
+
+/-- `sweeps`: the answers of the destination to the periodic "already executed?" polls that happen before the signature
+    arrives (`true` = executed; a failed lookup counts as not executed). The loop holds the batch that was hashed. -/
+def watch (batch : List Nat) (sweeps : List (List Bool)) : WatchOut :=
+  if sweeps.any (fun w => w.length == batch.length && w.all id) then .closed else .submitted batch
+
 end Sygma.C02
